@@ -181,9 +181,13 @@ impl Number {
         }
         let exp = num.as_int().unwrap();
         let two = BigInt::from(2i64);
-        let exp = two.pow(exp as u32);
+        let pow = Numeric::from(two.pow(exp.abs() as u32));
         Ok(Number {
-            value: &self.value * &Numeric::from(exp),
+            value: if exp < 0 {
+                &self.value / &pow
+            } else {
+                &self.value * &pow
+            },
             unit: self.unit.clone(),
         })
     }
@@ -201,9 +205,13 @@ impl Number {
         }
         let exp = num.as_int().unwrap();
         let two = BigInt::from(2i64);
-        let exp = two.pow(exp as u32);
+        let pow = Numeric::from(two.pow(exp.abs() as u32));
         Ok(Number {
-            value: &self.value / &Numeric::from(exp),
+            value: if exp < 0 {
+                &self.value * &pow
+            } else {
+                &self.value / &pow
+            },
             unit: self.unit.clone(),
         })
     }
